@@ -1510,7 +1510,14 @@ func FunExpr(query *Query, current Map, expr *sqlparser.FuncExpr, opts ...ExprOp
 	if name == "await" {
 		var rs any
 		var err error
+		done := false
 		query.postProcessors = append(query.postProcessors, func() error {
+			// run once: the post-processors of a query may be run before its
+			// end (DISTINCT and ORDER BY need the values) and again at its end
+			if done {
+				return err
+			}
+			done = true
 			slice, e := FuncArgReader(query, current, expr.Exprs)
 			if e != nil {
 				err = e
@@ -2010,6 +2017,17 @@ func (query *Query) exec() (result any, err error) {
 	rs, err = ExecSelect(query, rs)
 	if err != nil {
 		return nil, err
+	}
+	if query.distinct || query.orderByDefinition != nil {
+		// DISTINCT and ORDER BY compare rows by value: what the select list
+		// left pending (async calls and the post-processors that put their
+		// results into the rows) is resolved first
+		query.wg.Wait()
+		for i := 0; i < len(query.postProcessors); i++ {
+			if err := query.postProcessors[i](); err != nil {
+				return nil, err
+			}
+		}
 	}
 	rs, err = ExecDistinct(query, rs)
 	if err != nil {
